@@ -12,8 +12,9 @@ Spec: `BehSound` / `ArgsContra` (Spec/SigAssignSpec.lean) over CPython's binder 
 (Spec/CpyBind.lean).  `E` = expected header (`self`), `A` = actual header (`other`).
 
 The code does **not** satisfy the full statement; the exception classes are
-`D07_posKwClash` and `D07_starKwClash`. A third, typed class `kwShadow` was repaired by /repo
-commit d699eb1 (model updated; regression theorem `kwShadow_fixed`).
+`D07_posKwClash` and `D07_starKwClash`. Two further classes were repaired in /repo and are kept as
+regression theorems: `kwShadow` (d699eb1, `kwShadow_fixed`) and `staticFirst` (7244153,
+`old_staticFirst_fixed`).
 -/
 namespace Pya.C07
 
@@ -247,39 +248,37 @@ theorem override_order_irrelevant (R : TyRel τ) (defs : Nat → Option (Member 
     overrideOk R defs l₁ child = overrideOk R defs l₂ child :=
   overrideOk_perm R defs l₁ l₂ hp child
 
-/-- **Overrides are behaviourally sound against every ancestor, outside the exception classes.**
-If the override check passes for a function member `c`, then for every ancestor `i` of the class
-binding a function member `b` under the same name, every call shape that binds to `b`'s header
-binds to `c`'s — unless that pair is in `staticFirst`, `posKwClash` or `starKwClash`. -/
+/-- **Overrides are behaviourally sound against every ancestor, outside the two signature-level
+classes.** If the override check passes for a function member `c` (method or staticmethod), then
+for every ancestor `i` of the class binding a function member `b` under the same name, every call
+shape that binds to `b`'s header binds to `c`'s — unless that pair is in `posKwClash` or
+`starKwClash`. (The former third exclusion `staticFirst` was repaired by /repo 7244153.) -/
 theorem override_sound_partial (R : TyRel τ) (a : τ) (defs : Nat → Option (Member τ))
     (anc : List Nat) (c : FnMember τ) (hc : c.hdr.WF)
-    (hok : overrideOk R defs anc (.fn (c.raw a)) = true)
-    (i : Nat) (hi : i ∈ anc) (b : FnMember τ) (hb : defs i = some (.fn (b.raw a)))
-    (h0 : ¬ D07_staticFirst R b c = true)
+    (hok : overrideOk R defs anc (c.member a) = true)
+    (i : Nat) (hi : i ∈ anc) (b : FnMember τ) (hb : defs i = some (b.member a))
     (h1 : ¬ D07_posKwClash b.hdr c.hdr = true) (h2 : ¬ D07_starKwClash b.hdr c.hdr = true) :
     BehSound b.hdr c.hdr := by
   have hm := (overrideOk_iff R defs anc _).mp hok i hi _ hb
-  simp only [memberOk] at hm
-  exact sig_assign_sound_partial R b.hdr c.hdr hc h1 h2
-    (callableOk_hdr R a b c hm (by simpa using h0))
+  simp only [memberOk, FnMember.member, callableOk_hdr] at hm
+  exact sig_assign_sound_partial R b.hdr c.hdr hc h1 h2 hm
 
-/-- …and contravariant in the parameters, covariant in the return annotation. -/
+/-- …and contravariant in the parameters, covariant in the return annotation (outside
+`posKwClash`). -/
 theorem override_variance_partial (R : TyRel τ) (sup : τ → τ → Prop) (hR : RelSound R sup) (a : τ)
     (defs : Nat → Option (Member τ)) (anc : List Nat) (c : FnMember τ) (hc : c.hdr.WF)
-    (hok : overrideOk R defs anc (.fn (c.raw a)) = true)
-    (i : Nat) (hi : i ∈ anc) (b : FnMember τ) (hbw : b.hdr.WF) (hb : defs i = some (.fn (b.raw a)))
-    (h0 : ¬ D07_staticFirst R b c = true) (h1 : ¬ D07_posKwClash b.hdr c.hdr = true) :
+    (hok : overrideOk R defs anc (c.member a) = true)
+    (i : Nat) (hi : i ∈ anc) (b : FnMember τ) (hbw : b.hdr.WF) (hb : defs i = some (b.member a))
+    (h1 : ¬ D07_posKwClash b.hdr c.hdr = true) :
     ArgsContra sup b.hdr c.hdr ∧ sup c.hdr.ret b.hdr.ret := by
   have hm := (overrideOk_iff R defs anc _).mp hok i hi _ hb
-  simp only [memberOk] at hm
-  exact sig_assign_variance_partial R sup hR b.hdr c.hdr hbw hc h1
-    (callableOk_hdr R a b c hm (by simpa using h0))
+  simp only [memberOk, FnMember.member, callableOk_hdr] at hm
+  exact sig_assign_variance_partial R sup hR b.hdr c.hdr hbw hc h1 hm
 
-/-- Two plain methods are never in `staticFirst`: for them the theorems above need only the two
-signature-level classes. -/
-theorem staticFirst_methods (R : TyRel τ) (b c : FnMember τ) (hb : b.static = false)
-    (hc : c.static = false) : D07_staticFirst R b c = false := by
-  simp [D07_staticFirst, hb, hc]
+/-- Function members are compared on the headers a caller passes, staticmethod or not. -/
+theorem override_fn_is_header_check (R : TyRel τ) (a : τ) (b c : FnMember τ) :
+    memberOk R (b.member a) (c.member a) = sigCanAssign R b.hdr.tsig c.hdr.tsig := by
+  simp only [memberOk, FnMember.member, callableOk_hdr]
 
 /-- **Property overrides, full strength.** An accepted property override has a getter type
 included in the base's, and a settable base has a settable child accepting the base's values. -/
@@ -293,15 +292,24 @@ theorem override_prop_sound (R : TyRel τ) (sup : τ → τ → Prop) (hR : RelS
   simp at h1 h3
   exact ⟨h1, hR.asg _ _ h3⟩
 
-/-- `staticFirst` witness: `@staticmethod def s(a=0)` overridden by `@staticmethod def s(a)` is
-accepted (the first parameter is stripped like `self`); `s()` binds to the base only. -/
+/-- Regression pair of the repaired class `staticFirst` (/repo 7244153): `@staticmethod def s(a=0)`
+overridden by `@staticmethod def s(a)`; `s()` binds to the base only. -/
 def wStatB : FnMember Tag := ⟨true, { po := [], pk := [wp "a" true], vp := none, ko := [], vk := none, ret := .any }⟩
 def wStatC : FnMember Tag := ⟨true, { po := [], pk := [wp "a"], vp := none, ko := [], vk := none, ret := .any }⟩
+/-- `@staticmethod def u()` overridden by `@staticmethod def u(a)`. -/
+def wStatU : FnMember Tag := ⟨true, { po := [], pk := [], vp := none, ko := [], vk := none, ret := .any }⟩
 
-theorem witness_staticFirst :
-    wStatC.hdr.WF ∧ memberOk liveTyRel (.fn (wStatB.raw .any)) (.fn (wStatC.raw .any)) = true ∧
-    D07_staticFirst liveTyRel wStatB wStatC = true ∧
-    cpyBind wStatB.hdr.shape ⟨0, []⟩ = true ∧ cpyBind wStatC.hdr.shape ⟨0, []⟩ = false := by
+/-- **Regression (was `witness_staticFirst`).** The override is now rejected; the old comparison
+(`bind_self` on both sides) accepted it, it was in the old class, and `s()` separates the two
+headers. Likewise for a parameterless base staticmethod, which used to accept every override. -/
+theorem old_staticFirst_fixed :
+    memberOk liveTyRel (wStatB.member .any) (wStatC.member .any) = false ∧
+    old_callableOk liveTyRel (wStatB.raw .any) (wStatC.raw .any) = true ∧
+    old_D07_staticFirst liveTyRel wStatB wStatC = true ∧
+    cpyBind wStatB.hdr.shape ⟨0, []⟩ = true ∧ cpyBind wStatC.hdr.shape ⟨0, []⟩ = false ∧
+    memberOk liveTyRel (wStatU.member .any) (wStatC.member .any) = false ∧
+    old_callableOk liveTyRel (wStatU.raw .any) (wStatC.raw .any) = true ∧
+    memberOk liveTyRel (wStatC.member .any) (wStatB.member .any) = true := by
   decide
 
 /-- Sibling bases (regression for "compare with the nearest definer only"):
@@ -313,16 +321,16 @@ def wFetch1 : FnMember Tag := ⟨false, { po := [], pk := [wp "key"], vp := none
 def wFetch2 : FnMember Tag :=
   ⟨false, { po := [], pk := [wp "key", wp "retries" true], vp := none, ko := [], vk := none, ret := .any }⟩
 def wFetchDefs : Nat → Option (Member Tag)
-  | 0 => some (.fn (wFetch1.raw .any))
-  | 1 => some (.fn (wFetch2.raw .any))
+  | 0 => some (wFetch1.member .any)
+  | 1 => some (wFetch2.member .any)
   | _ => none
 
 theorem sibling_bases_both_compared :
     c3Mros [[], [], [0, 1]] = [some [0], some [1], some [2, 0, 1]] ∧
     c3Mros [[], [], [1, 0]] = [some [0], some [1], some [2, 1, 0]] ∧
-    overrideOk liveTyRel wFetchDefs [0] (.fn (wFetch1.raw .any)) = true ∧
-    overrideOk liveTyRel wFetchDefs [0, 1] (.fn (wFetch1.raw .any)) = false ∧
-    overrideOk liveTyRel wFetchDefs [1, 0] (.fn (wFetch1.raw .any)) = false ∧
+    overrideOk liveTyRel wFetchDefs [0] (wFetch1.member .any) = true ∧
+    overrideOk liveTyRel wFetchDefs [0, 1] (wFetch1.member .any) = false ∧
+    overrideOk liveTyRel wFetchDefs [1, 0] (wFetch1.member .any) = false ∧
     cpyBind wFetch2.hdr.shape ⟨2, []⟩ = true ∧ cpyBind wFetch1.hdr.shape ⟨2, []⟩ = false := by
   decide
 
